@@ -19,6 +19,15 @@ pub fn count(tier: Tier) -> u64 {
 
 pub fn gen(seed: u64, tier: Tier, k: u64) -> Value {
     let mut rng = Rng::keyed(seed, "C12", k);
+    if (tier == Tier::Quick && k == 2) || (tier == Tier::Thorough && k % 400 == 2) {
+        // a manifest listing 256 packs or more (the masked part of every pack description takes part in the manifest's checksum)
+        let mut case = gen_small(&mut rng, tier, Pkg::NoConcat, 0, 3);
+        for _ in 1..*rng.pick(&[256usize, 257, 300]) {
+            let items = vec![crate::content::Item { len: rng.range(1, 30) as usize, ent: crate::content::Ent::High, hint: crate::content::Hint::No, src: crate::content::Src::Mem, dup_of: None, cat_of: None }];
+            case.extra.push(crate::content::ContentCase { seed: rng.next(), comp: crate::content::Comp::None, cached: false, items });
+        }
+        return json!({"case": case.to_json(), "layout": "as-created", "steps": 14, "h_seed": rng.next(), "via_cli": false, "many": true});
+    }
     let pkg = [Pkg::NoConcat, Pkg::OneFile, Pkg::TwoFiles][(k % 3) as usize];
     let n_extra = if k % 5 == 0 { rng.range(1, 2) as usize } else { 0 };
     let mut case = gen_small(&mut rng, tier, pkg, n_extra, 4);
@@ -75,6 +84,15 @@ fn gen_location(rng: &mut Rng) -> String {
     while s.len() < target {
         s.push('x');
     }
+    // a location is an opaque string: one in eight looks like a URL or a drive path (what is written is what must be read back)
+    if rng.chance(1, 8) {
+        let pre = *rng.pick(&["file:", "file://", "http://host/", "C:\\dir\\", "./", "//", " "]);
+        if pre.len() <= s.len() && s.is_char_boundary(pre.len()) {
+            s.replace_range(..pre.len(), pre);
+        } else if s.len() + pre.len() <= 213 {
+            s.insert_str(0, pre);
+        }
+    }
     s
 }
 
@@ -93,7 +111,13 @@ pub fn run(desc: &Value, ctx: &Ctx) -> CaseOut {
     let r = util::catch(|| {
         let dir = scratch.path("c");
         std::fs::create_dir_all(&dir).unwrap();
-        let created = match create_container(&case, &dir, "c.jbk", Arc::new(())) {
+        let made = if jbool(desc, "many") {
+            out.obs.max("packs_listed_in_one_manifest", 2 + case.extra.len() as u64);
+            create_loose(&case, &dir, &|_, f| f.to_string(), None)
+        } else {
+            create_container(&case, &dir, "c.jbk", Arc::new(()))
+        };
+        let created = match made {
             Ok(c) => c,
             Err(e) => return out.inconclusive(format!("creation failed: {e}")),
         };
